@@ -339,7 +339,7 @@ class C04(Prop):
     prop_file = "Props/C04.v"
     module = "Props.C04"
     gen_deps = ["Table", "Style", "Render", "Palette", "Svg", "Roff", "Git", "Ls", "ParseCfg",
-                "ParserFn", "StripFn", "WinconFn", "LossyFn", "LsFn", "GitFn", "RoffFn", "Utf8parseFn"]
+                "ParserFn", "StripFn", "WinconFn", "LossyFn", "LsFn", "GitFn", "RoffFn", "Utf8parseFn", "ArrayVecFn"]
     harness = ("h-core", "hcore")
     shard_min = 400
     nontrivial_rule = (
@@ -360,6 +360,7 @@ class C04(Prop):
                "third-party utf8parse automaton: translated from the registry source of the version Cargo.lock pins (tools/gen_fn_utf8parse.py; source = checksummed archive = what cargo metadata "
                "reports for the harness crates) and proved equal to Model/Utf8parse.v; trusted: cargo builds the harness from that directory, char::from_u32_unchecked = identity (precondition proved: "
                "c04_translated_utf8parse_unchecked_char_is_scalar)",
+               "arrayvec 0.7.6 ArrayVec (the `core` buffer): new / Default, len, capacity, is_full, push, try_push, push_unchecked, truncate, clear, set_len, as_slice, Deref, Drop, the default bodies of trait ArrayVecImpl they reach, CapacityError::new and the macro assert_capacity_limit! are TRANSLATED from the registry source of the version Cargo.lock pins (tools/gen_fn_arrayvec.py: unpacked source = the .crate archive of the lock file's checksum = the directory `cargo metadata --all-features` reports for harness/h-parsecfg) and proved to behave, on the representation invariant (slots [0, len) initialised, len <= CAP), as the list the parser translation uses (raw_full, len, guarded `++ [b]`, [], slice) and to preserve the invariant (Proofs/ArrayVecGen.v, c20_translated_arrayvec_*). Trusted: the VALUE-LEVEL reading of its unsafe code (coq/Model/ArrayVec.v: a MaybeUninit slot is an option, a pointer into the buffer is a slot index bound to the vector it came from, ptr::write / from_raw_parts / drop_in_place act on those slots, undefined behaviour = None; size_of::<usize>() = 8), that cargo builds the harness from that directory, and the Clone / PartialEq / Debug impls of ArrayVec (reached by Parser's derives only; differential runs)",
                "std::panic::catch_unwind in every harness: a panic inside a case is the result PANIC (an abort -- stack overflow, allocation failure, double panic -- ends the harness "
                "process: the run then fails as a whole, which the runner reports as a broken run, never as a pass)",
                "cargo profiles of the harness crates: dev = opt-level 1, overflow-checks = true, debug-assertions = true; release = opt-level 2, both false"]
